@@ -137,7 +137,7 @@ package hessian
 //@   assigns @pos, @E, @declared, @rset, @nvals, @selfregs, @lastreader, @calls, @dstartcls, @dstartrefs, @dstarttyps, d.typList, d.refList, d.clsDefList
 //@   sets @lastreader = 2
 //@   sets @calls = old(@calls) + 1
-//@   loop 1 invariant [C14,C03:untypedlist-index] (isVariableArr || (0 <= j && j <= length)) && 0 <= length && length <= 0x7fffffff && (!isVariableArr ==> j <= len(ary) && len(ary) <= length)
+//@   loop 1 invariant [C14,C03:untypedlist-index] (isVariableArr || (0 <= j && j <= length)) && 0 <= length && length <= 0x7fffffff && (!isVariableArr ==> j <= len(ary) && len(ary) <= length) && (isVariableArr ==> len(ary) == j)
 //@   loop 1 invariant [C14:untypedlist-consumed] isVariableArr || j <= @pos - old(@pos)
 //@   loop 1 invariant [C03,C06:untypedlist-one-value-per-element] @nvals == old(@nvals) + j
 //@   loop 1 decreases ite(isVariableArr, len(@in) - @pos, length - j)
